@@ -25,6 +25,8 @@ class MemTransport(asyncio.Transport):
         self.log_short = log_short
         self.body_expected = 0      # Content-Length announced by the request head written last
         self.body_seen = 0          # body bytes written since that head
+        self.body_tail = b""        # last bytes written (a chunked body is complete when they are 0 CRLF CRLF)
+        self.hold = False
         self.out = bytearray()
         self.closing = False
         self.closed = False
@@ -39,18 +41,24 @@ class MemTransport(asyncio.Transport):
         for m in re.finditer(rb"(?:GET|HEAD|POST) (?:(?:https?|wss?)://[^/ ]+)?/(\d+) HTTP/1\.1\r\n", data):
             j = int(m.group(1))
             self.body_seen += m.start() - pos
-            if self.reqs and self.body_seen < self.body_expected and self.log_short is not None:
+            if self.body_expected == -1:      # chunked request body: complete iff the last-chunk was written
+                short = not (self.body_tail + data[pos:m.start()]).endswith(b"0\r\n\r\n")
+            else:
+                short = self.body_seen < self.body_expected
+            if self.reqs and short and self.log_short is not None:
                 # a new request head follows a request whose announced body was not (fully) written
                 self.log_short(self.idx, self.reqs[-1], self.body_seen, self.body_expected, j)
             end = data.find(b"\r\n\r\n", m.start())
             head = data[m.start():end + 4] if end >= 0 else data[m.start():]
             cl = re.search(rb"\r\nContent-Length: (\d+)\r\n", head)
-            self.body_expected = int(cl.group(1)) if cl else 0
+            self.body_expected = int(cl.group(1)) if cl else (-1 if re.search(rb"\r\nTransfer-Encoding: chunked\r\n", head) else 0)
             self.body_seen = 0
+            self.body_tail = b""
             pos = m.start() + len(head)
             self.reqs.append(j)
             self.log(self.idx, j)
         self.body_seen += len(data) - pos
+        self.body_tail = (self.body_tail + data[pos:])[-8:]
 
     def writelines(self, l):
         for d in l:
@@ -62,7 +70,18 @@ class MemTransport(asyncio.Transport):
     def close(self):
         if not self.closing:
             self.closing = True
-            self.loop.call_soon(self._lost, None)
+            if not self.hold:
+                self.loop.call_soon(self._lost, None)
+            # else: connection_lost is delivered by the harness later (op X): the window in which the
+            # transport is closing but the protocol still has it (TLS shutdown, write buffer draining)
+
+    def begin_close(self):
+        """the peer's FIN is read: eof_received() returns a false value, the transport closes itself;
+        connection_lost follows later (op X)"""
+        if self.closing or self.closed:
+            return
+        self.closing = True
+        self.proto.eof_received()
 
     def abort(self):
         self.close()
@@ -249,11 +268,18 @@ def run_scenario(cfg, next_op, keyparams):
 
         async def connect(self, req, traces, timeout):
             # what the REAL ClientRequest.connection_key says for request j (compared pairwise by the oracle)
+            j = -1
             try:
-                R.real_keys[int(req.url.path.rsplit("/", 1)[-1])] = req.connection_key
+                j = int(req.url.path.rsplit("/", 1)[-1])
+                R.real_keys[j] = req.connection_key
             except ValueError:
                 pass
-            return await super().connect(req, traces, timeout)
+            conn = await super().connect(req, traces, timeout)
+            for tr in self.transports:
+                if tr.proto is conn.protocol:
+                    # the connector handed connection tr.idx to request j; was its transport already closing?
+                    R.events.append(("acquire", tr.idx, j, len(R.ops) - 1, tr.closing or tr.closed))
+            return conn
 
         async def _create_connection(self, req, traces, timeout):
             proto = self._factory()
@@ -296,6 +322,10 @@ def run_scenario(cfg, next_op, keyparams):
                     if not t.done():
                         t.cancel()
                 await R.settle()
+                for tr in R.conn.transports:      # deliver every connection_lost still held back
+                    tr.hold = False
+                    if tr.closing and not tr.closed:
+                        tr._lost(None)
                 for r in R.resps:
                     if r is not None:
                         r.close()
@@ -337,6 +367,7 @@ async def do_op(R, op, keyparams):
         R.early = op[3] or None
         ws = kw.pop("_ws", False)       # ws_connect instead of get
         post = kw.pop("_post", 0)       # POST with a body of that many bytes and Expect: 100-continue
+        body_kind = kw.pop("_body", "bytes")
         R.meta.append({"key": op[1], "skip": op[2], "ws": ws, "post": post})
         R.used.append([])
         R.resps.append(None)
@@ -349,7 +380,23 @@ async def do_op(R, op, keyparams):
                 R.resps[j] = w._response
                 return w
             if post:
-                r = await R.session.post(url, data=b"B" * post, expect100=True, allow_redirects=False, **kw)
+                if body_kind == "agen":          # async generator: Payload.size is None, sent chunked
+                    async def gen():
+                        yield b"B" * post
+                    data = gen()
+                elif body_kind == "stream":      # unseekable stream: size unknown as well
+                    import io
+
+                    class Unseekable(io.RawIOBase):
+                        def __init__(self, b): self._b = io.BytesIO(b)
+                        def readable(self): return True
+                        def seekable(self): return False
+                        def readinto(self, buf):
+                            d = self._b.read(len(buf)); buf[:len(d)] = d; return len(d)
+                    data = io.BufferedReader(Unseekable(b"B" * post))
+                else:
+                    data = b"B" * post
+                r = await R.session.post(url, data=data, expect100=True, allow_redirects=False, **kw)
             else:
                 meth = R.session.head if op[2] else R.session.get
                 r = await meth(url, allow_redirects=False, **kw)
@@ -370,6 +417,15 @@ async def do_op(R, op, keyparams):
         if not tr.closing and not tr.closed:
             R.events.append(("peerclose", op[1]))
         tr.peer_lost(OSError(104, "reset") if op[2] else None)
+    elif k == "F":
+        if op[1] < len(R.conn.transports):
+            tr = R.conn.transports[op[1]]
+            if not tr.closing and not tr.closed:
+                R.events.append(("peerclose", op[1]))
+                tr.begin_close()
+    elif k == "H":
+        if op[1] < len(R.conn.transports):
+            R.conn.transports[op[1]].hold = True
     elif k == "D":
         j = op[1]
         if R.resps[j] is not None and R.rtasks[j] is None:
